@@ -10,6 +10,7 @@ HARNESS = {
     'lincheck': dict(srcs=['harness/sched/lincheck.c', 'harness/sched/sched.c'] + COMMON),
     'refcount': dict(srcs=['harness/sched/refcount.c', 'harness/sched/sched.c', 'harness/common/cumem.c'] + COMMON),
     'wakeup': dict(srcs=['harness/sched/wakeup.c', 'harness/sched/sched.c', 'harness/common/mockloop.c'] + COMMON),
+    'pumplab': dict(srcs=['harness/pipelab/pumplab.c', 'harness/common/mockloop.c'] + COMMON),
     'picsound': dict(srcs=['harness/corelab/picsound.c', 'harness/common/cumem.c'] + COMMON),
 }
 
@@ -29,6 +30,15 @@ ENGINES.append(dict(
                    'and replayable, deadlock decided on logical state) + '
                    'history checkers (Wing-Gong linearizability, exactly-once '
                    'ledgers); free-running ThreadSanitizer runs'))
+
+ENGINES.append(dict(
+    name='pipelab', path='harness/pipelab',
+    serves_properties=['C01', 'C04', 'C05', 'C12', 'C13', 'C14', 'C20'],
+    kind_free_text='pipe laboratory: catalogue of pipe types driven by a '
+                   'random protocol-respecting driver between recording '
+                   'probes and recording sinks, mock event loop (real '
+                   'upump_common, recording back-end, virtual time), counting '
+                   'managers; several oracles over the same executions'))
 
 NOT_CLAIMED = {}
 
@@ -307,5 +317,36 @@ PROPS['C08'] = dict(
                       'preempt_at.eventfd_read', 'preempt_at.eventfd_write']),
         dict(name='wakeup-asan', bin='wakeup', variant='asan', quick=15000,
              thorough=800000),
+    ],
+)
+
+PROPS['C13'] = dict(
+    engine='pipelab',
+    technique='runtime monitoring: 3-variable reference automaton (started, '
+              '#blockers, expired) compared with the recording back-end of a '
+              'mock loop built on the real upump_common after every call, '
+              'and callback monitors on the real libev back-end',
+    level_text='Random sequences of start / stop / restart / set_status / '
+               'blocker alloc / blocker free / dispatch / free (including '
+               're-entrant stop, free, block and restart from inside the '
+               'callback) on idler, fd and timer pumps; back-end activity must '
+               'equal started && no blocker after every call, every '
+               'outstanding blocker is notified exactly once at free, no '
+               'callback after stop or free.',
+    level_note=SAN_NOTE + 'A one-shot timer that has fired is inactive in '
+               'the back-end (as in libev) although still started; the model '
+               'tracks this with an "expired" flag.',
+    rule='case = sequence of 25 calls on one pump; non-trivial = sequence '
+         'with calls issued while a blocker was held; distinct = hash of the '
+         'call sequence',
+    assumptions=['blocker callbacks free their blocker (documented idiom)'],
+    jobs=[
+        dict(name='pump-mock', bin='pumplab', variant='asan', mode='mock',
+             quick=200000, thorough=8000000,
+             require=['cb.reentrant_free', 'op.free_with_blockers',
+                      'dispatch.fired', 'dispatch.silent']),
+        dict(name='pump-ev', bin='pumplab', variant='asan', mode='ev',
+             quick=100000, thorough=4000000,
+             require=['cb.reentrant_stop', 'dispatch.fired', 'dispatch.silent']),
     ],
 )
